@@ -1083,8 +1083,10 @@ func (app *App) updateActiveNodes(clusterState, clusterStateDcs map[string]*node
 	for _, hostname := range becomeActive {
 		err := app.enableSemiSyncOnSlave(hostname, clusterState[hostname], masterState)
 		if err != nil {
-			waitSlaveCount--
+			// the host does not join: recount for the hosts that do (a plain decrement per
+			// failed host could go below zero, the count depends on the size of the list)
 			activeNodes = filterOut(activeNodes, []string{hostname})
+			waitSlaveCount = app.switchHelper.GetRequiredWaitSlaveCount(filterOut(activeNodes, becomeDataLag))
 			continue
 		}
 
